@@ -194,6 +194,140 @@ class Interval(DBC):
         self.high = high
         self.low = low
 ''',
+    "loop-variable-shadows-a-narrowed-argument": '''
+class Detail(DBC):
+    value: int
+
+    def __init__(self, value: int) -> None:
+        self.value = value
+
+
+class Item(DBC):
+    detail: Optional[Detail]
+
+    def __init__(self, detail: Optional[Detail] = None) -> None:
+        self.detail = detail
+
+
+@verification
+def details_positive(item: Item, items: List[Item]) -> bool:
+    """Check the details of the items if the detail of the item is set."""
+    return (
+        item.detail is None
+        or all(item.detail.value > 0 for item in items)
+    )
+
+
+@invariant(lambda self: details_positive(self.primary, self.remaining), "Details must be positive.")
+class Holder(DBC):
+    primary: Item
+    remaining: List[Item]
+
+    def __init__(self, primary: Item, remaining: List[Item]) -> None:
+        self.primary = primary
+        self.remaining = remaining
+''',
+    "loop-variable-with-a-fresh-name-and-narrowed-argument": '''
+class Detail(DBC):
+    value: int
+
+    def __init__(self, value: int) -> None:
+        self.value = value
+
+
+class Item(DBC):
+    detail: Optional[Detail]
+
+    def __init__(self, detail: Optional[Detail] = None) -> None:
+        self.detail = detail
+
+
+@verification
+def details_positive(item: Item, items: List[Item]) -> bool:
+    """Check the details of the items if the detail of the item is set."""
+    return (
+        item.detail is None
+        or all(item.detail.value > 0 and other.detail is None for other in items)
+    )
+
+
+@invariant(lambda self: details_positive(self.primary, self.remaining), "Details must be positive.")
+class Holder(DBC):
+    primary: Item
+    remaining: List[Item]
+
+    def __init__(self, primary: Item, remaining: List[Item]) -> None:
+        self.primary = primary
+        self.remaining = remaining
+''',
+    "local-variable-re-assigned-with-an-ancestor-value": '''
+@serialization(with_model_type=True)
+class Shape(DBC):
+    name: str
+
+    def __init__(self, name: str) -> None:
+        self.name = name
+
+
+class Circle(Shape):
+    radius: int
+
+    def __init__(self, name: str, radius: int) -> None:
+        Shape.__init__(self, name=name)
+        self.radius = radius
+
+
+@verification
+def radius_positive(first: Circle, second: Shape) -> bool:
+    """Check the radius."""
+    current = first
+    current = second
+    return current.radius > 0
+
+
+@invariant(lambda self: radius_positive(self.circle, self.shape), "Radius must be positive.")
+class Holder(DBC):
+    circle: Circle
+    shape: Shape
+
+    def __init__(self, circle: Circle, shape: Shape) -> None:
+        self.circle = circle
+        self.shape = shape
+''',
+    "local-variable-re-assigned-with-a-descendant-value": '''
+@serialization(with_model_type=True)
+class Shape(DBC):
+    name: str
+
+    def __init__(self, name: str) -> None:
+        self.name = name
+
+
+class Circle(Shape):
+    radius: int
+
+    def __init__(self, name: str, radius: int) -> None:
+        Shape.__init__(self, name=name)
+        self.radius = radius
+
+
+@verification
+def name_not_empty(first: Circle, second: Shape) -> bool:
+    """Check the name."""
+    current = second
+    current = first
+    return len(current.name) > 0
+
+
+@invariant(lambda self: name_not_empty(self.circle, self.shape), "Name must not be empty.")
+class Holder(DBC):
+    circle: Circle
+    shape: Shape
+
+    def __init__(self, circle: Circle, shape: Shape) -> None:
+        self.circle = circle
+        self.shape = shape
+''',
     "optional-list-in-quantifier": '''
 @invariant(lambda self: all(len(x) > 0 for x in self.names), "Names must not be empty.")
 class Something(DBC):
